@@ -392,11 +392,15 @@ def digest(conn):
         bytes(conn._peer_cid.cid),
         conn._remote_max_data,
         tuple(sorted(conn._peer_cid_sequence_numbers)),
+        # which keys are installed and which packet number spaces are gone: an unauthentic packet must not retire any
+        tuple(sorted((int(ep.value), c.recv.is_valid(), c.send.is_valid()) for ep, c in cryptos.items()))
+        + tuple(sorted((int(v), c.recv.is_valid(), c.send.is_valid()) for v, c in getattr(conn, "_cryptos_initial", {}).items())),
+        tuple(sorted((int(ep.value), bool(sp.discarded)) for ep, sp in spaces.items())),
     )
 
 
 DIGEST_FIELDS = ["pending-events", "tls-state", "handshake-complete", "handshake-confirmed", "connection-state", "close-pending", "close-event",
-                 "stream-delivery", "ack-sets", "crypto-stream-delivery", "retry-count", "version", "key-phase", "peer-cid", "remote-max-data", "peer-cid-seqs"]
+                 "stream-delivery", "ack-sets", "crypto-stream-delivery", "retry-count", "version", "key-phase", "peer-cid", "remote-max-data", "peer-cid-seqs", "keys-installed", "spaces-discarded"]
 
 
 def alterations(pkt: bytes, views, all_bits: bool, rng):
